@@ -177,7 +177,7 @@ PROPS = {
         assumptions=['LowerLaw: new < bg -> float32(new) - w < float32(bg), true for the non-negative weights that occur', 'the float64 mean is within one count of the exact mean (validated by the monitor, not proved)', 'the clause "background and threshold stored with a recording are those at the trigger" is covered by the e2e stream'],
     ),
     'C10': dict(
-        lean=['Props.C10', 'Props.C10Gen', 'Props.C10Glob', 'Props.C10Pipe', 'Props.Daemon', 'Props.FactsMain'],
+        lean=['Props.C10', 'Props.C10Gen', 'Props.C10Glob', 'Props.C10Pipe', 'Props.C10PipeThr', 'Props.Daemon', 'Props.FactsMain'],
         streams=['fs', 'names', 'e2e', 'daemon'],
         project={'fs': r'^< (?!sys write)', 'e2e': r'^$', 'daemon': r'^< (ls|start|dir)'},
         rule='op sequences of the real motion, test and continuous CPTVFileRecorders (start / write n frames / stop / discard) run under strace; every '
